@@ -1,5 +1,5 @@
 check('C15', 'translation_validation',
       'The same TLC behaviours (datasets, part layouts, maintenance steps) and the same queries (projections, criteria, AND/OR, order by time ASC/DESC with offset/limit) are executed against stand-alone servers started with --measure-vectorized-enabled=false, =true and =true with batch size 2; every response must equal the Engine.tla answer, so the two pipelines agree on everything the spec fixes (row set, bit-exact values, order, window).',
-      'Single node: columnar frames between data node and coordinator are not exercised; aggregation/group-by/top-N equivalence is covered at plan level by C10; measure only.',
+      'Measure AND stream engines, each with the vectorized flag off (the documented roll-back rail) / on / on with batch size 2; single node: columnar frames between data node and coordinator are exercised by C17 part b only; aggregation/group-by/top-N equivalence is covered at plan level by C10; measure only.',
       'differential execution of TLC-generated query programs on row and vectorized pipelines against a TLA+ oracle',
       'Engine', 'DESIGN.md §5 C15, §12')
